@@ -434,6 +434,15 @@ def make_env():
             "footnote": {"text": "FN0 " + chr(0xDFFF), "as_table": False},
             "page_footer": {"text": "PF0 " + chr(0xDC80)}}
     docs["hardtext"] = S.build(hard, figdir)
+    # two subline_by levels, one of them null on the rows that open a page, the other with non-ASCII text; a Float
+    # column with NaN; a page_by level that is null
+    sub_df = c14.tagged(6, 2)
+    sub_df["cols"] += [{"name": "S1", "dtype": "str", "values": [None, None, None, "B", "B", "B"]},
+                       {"name": "S2", "dtype": "str", "values": ["Gr" + chr(0xF6) + chr(0xDF) + "e"] * 3 + [chr(0x3B1) + "-Gruppe"] * 3},
+                       {"name": "F", "dtype": "floatx", "values": ["nan", "1.5", "nan", "-0.0", "inf", "nan"]},
+                       {"name": "P", "dtype": "str", "values": [None, None, "p", "p", None, None]}]
+    docs["sub2null"] = S.build({"kind": "table", "df": sub_df, "body": {"subline_by": ["S1", "S2"], "page_by": ["P"]},
+                                "title": {"text": "TT0"}}, figdir)
     # a table of everyday length (150 rows, several pages)
     docs["long150"] = S.build({"kind": "table", "df": c14.tagged(150, 3), "body": {}, "title": {"text": "TT0"},
                                "footnote": {"text": "FN0"}}, figdir)
@@ -495,6 +504,10 @@ def run_shard(desc, ctx):
                 for d in ("col_a", "paged", "hardtext"):
                     ctx.count("stub_runs")
                     run_one(ctx, env, "rtf", d, "is_directory", stem=rng.choice(STEMS))
+                for e in ("rtf", "docx", "html", "pdf"):
+                    for t in ("absent", "present"):
+                        ctx.count("stub_runs")
+                        run_one(ctx, env, e, "sub2null", t, stub_mode="html_resources" if e == "html" else "ok")
                 for e in ("rtf", "docx", "pdf", "html"):
                     for d in ("col_a", "paged", "plain3"):
                         ctx.count("stub_runs")
